@@ -1,6 +1,7 @@
 SPECIFICATION CSpec
 CONSTANTS
   MaxPkts = 2
+  CrossOnly = FALSE
   MaxAttempts = 1
   MaxErrorCalls = 1
   Defects = {"ctxAtErrorTime"}
